@@ -318,6 +318,93 @@ theorem hsOfUnitary_eq_toHerm (B : Basis ℂ d) (U : Mat ℂ d d) :
   ring
 end execgate
 
+/-! ## alternative descriptions agree: state vector ↔ density matrix ↔ coefficient vector; Kraus set ↔ HS matrix
+
+About the EXECUTED definitions `pureDensity`, `coefVec`, `densityOfCoef`, `krausSum`, `hsOfKraus` (driver ops `stateforms`,
+`hsofkraus`, compared on every catalogue state of the 1-qubit / 1-qutrit systems and every catalogue m-process). -/
+section descriptions
+variable {K : Type} [Field K] [StarRing K] [HasI K] {d : Nat}
+
+/-- C17 "density matrix and coefficient vector agree": for an orthonormal Hermitian basis with `B_0 = s·1`
+`ρ ↦ (tr(B_aᴴρ))_a` and `v ↦ Σ_a v_a B_a` are mutually inverse — every matrix, every coefficient vector, all `d`. -/
+theorem density_coef_roundtrip (B : Basis K d) (z : Fin (d * d)) (s : K) (hB : ONH0 B z s) (rho : Mat K d d)
+    (v : Vec K (d * d)) :
+    densityOfCoef B (coefVec B rho) = rho ∧ coefVec B (densityOfCoef B v) = v := by
+  constructor
+  · apply Mat.toM_injective
+    have hc := complete_of_onh0 B z s hB rho.toM
+    conv_rhs => rw [hc]
+    unfold densityOfCoef
+    rw [toM_msum]
+    apply Finset.sum_congr rfl; intro a _
+    rw [Mat.toM_smul]
+    simp only [coefVec, Vec.get_ofFn]
+    rw [trMul_eq_trace', toM_adj, toM_get_eq_Bm, hB.herm a, Matrix.trace_mul_comm]
+  · apply Vec.ext'; intro a
+    simp only [coefVec, Vec.get_ofFn]
+    rw [trMul_eq_trace', toM_adj, toM_get_eq_Bm, hB.herm a]
+    unfold densityOfCoef
+    rw [toM_msum, Matrix.mul_sum, Matrix.trace_sum]
+    simp only [Mat.toM_smul, Matrix.mul_smul, Matrix.trace_smul, toM_get_eq_Bm, hB.orth, smul_eq_mul, mul_ite, mul_one,
+      mul_zero]
+    simp
+
+/-- C17 "pure-state vector and density matrix agree": the executed `pureDensity ψ` is `|ψ⟩⟨ψ|` (Mathlib `vecMulVec`), so
+`state_of_pure_vector_physical` is a statement about it: Hermitian, PSD, trace `⟨ψ|ψ⟩`. -/
+theorem pureDensity_eq (psi : Vec K d) :
+    (pureDensity psi).toM = vecMulVec (fun i => psi.get i) (star fun i => psi.get i) := by
+  ext i j; simp [pureDensity, vecMulVec_apply, conj_eq_star]
+
+/-- C17 "Kraus set and HS matrix agree" (1): the comp-basis matrix `Σ_k K ⊗ K̄` acts as `ρ ↦ Σ_k K ρ Kᴴ`. -/
+theorem krausSum_action (ks : List (Mat K d d)) (rho : Mat K d d) :
+    (act (krausSum ks) rho).toM = (ks.map fun k => k.toM * rho.toM * k.toMᴴ).sum := by
+  unfold krausSum
+  have h := act_foldl_add (ks.map fun k => kron k (conjM k)) (Mat.zero : Mat K (d * d) (d * d)) rho
+  rw [List.foldl_map] at h
+  rw [h]
+  have h0 : (act (Mat.zero : Mat K (d * d) (d * d)) rho).toM = 0 := by
+    ext i j; simp [act_get, Mat.zero]
+  rw [h0, zero_add, List.map_map]
+  congr 1
+  apply List.map_congr_left; intro k _
+  simp only [Function.comp_apply]
+  rw [act_kron, toM_conjM_transpose]
+
+/-- C17 "Kraus set and HS matrix agree" (2), trace preservation of the generated m-process: if the Kraus operators of ALL
+outcomes together satisfy `Σ KᴴK = 1`, the first row of the model's `hsOfKraus` (sum over the outcomes of the
+catalogue's `hss`) is `e₀`. -/
+theorem hsOfKraus_row0 (B : Basis K d) (z : Fin (d * d)) (s : K) (hB : ONH0 B z s) (hs : star s = s)
+    (ks : List (Mat K d d)) (hk : (ks.map fun k => k.toMᴴ * k.toM).sum = 1) (b : Fin (d * d)) :
+    (hsOfKraus B ks).get z b = if b = z then 1 else 0 := by
+  have hz : ∀ i j, (B.get z).get i j = if i = j then s else 0 := by
+    intro i j
+    have := congrFun (congrFun hB.b0 i) j
+    simpa [Bm, Matrix.smul_apply, Matrix.one_apply] using this
+  unfold hsOfKraus
+  rw [toHerm_row0 B _ z b s hz, krausSum_action, hs]
+  have htr : ((ks.map fun k : Mat K d d => k.toM * (B.get b).toM * k.toMᴴ).sum).trace = ((B.get b).toM).trace := by
+    have : ∀ l : List (Mat K d d), ((l.map fun k : Mat K d d => k.toM * (B.get b).toM * k.toMᴴ).sum).trace
+        = ((l.map fun k : Mat K d d => k.toMᴴ * k.toM).sum * (B.get b).toM).trace := by
+      intro l
+      induction l with
+      | nil => simp
+      | cons k l ih =>
+        simp only [List.map_cons, List.sum_cons, Matrix.trace_add, Matrix.add_mul, ih]
+        congr 1
+        rw [Matrix.trace_mul_cycle]
+    rw [this, hk, Matrix.one_mul]
+  rw [htr, toM_get_eq_Bm, hB.trace_B]
+  by_cases h : b = z
+  · simp only [h, if_true]; rw [← mul_assoc]; exact hB.snorm
+  · simp [h]
+end descriptions
+
+/-- non-degenerate instances: Pauli basis, `ρ = X`; Kraus set `{X}` (unitary, so `Σ KᴴK = 1`) -/
+example := density_coef_roundtrip basisPauli _ sP onh0_basisPauli matX (Vec.ofFn fun a => (a.val : ℂ))
+example (b : Fin (2 * 2)) := hsOfKraus_row0 basisPauli _ sP onh0_basisPauli star_sP [matX]
+  (by simp only [List.map_cons, List.map_nil, List.sum_cons, List.sum_nil, add_zero]; rw [matX_herm]
+      ext i j; fin_cases i <;> fin_cases j <;> simp [matX, sigma, Matrix.mul_apply, Fin.sum_univ_two]) b
+
 /-! ## names outside the catalogue are rejected (about the definitions GENERATED from the source, QGen/C17.lean) -/
 section names
 open QGen.C17
